@@ -10,6 +10,8 @@
 //
 // The driver's own handle (what `co_await cocls::self()` yields) has the id maxh+1; every suspension of
 // the driver is followed by a counter increment, so each of its resumptions is counted (dres).
+// coro_queue::create_suspend_point(fn) (fn clears / discards one object, then returns or throws) and
+// cocls::parallel_resume() (resume.h; the detached thread it creates is waited for) are operations too.
 // The payload of the typed suspend points is int or Tracked (identity + moved-from flag): the attached
 // value is observed through a probe, never through the accessors under test.
 //
@@ -23,12 +25,44 @@
 // of replay_common.h counts both forms together and is therefore not used here.
 #include <cocls/suspend_point.h>
 #include <cocls/self.h>
+#include <cocls/resume.h>
 #include "replay_common.h"
 
 #include <coroutine>
 
+#include <dlfcn.h>
+#include <pthread.h>
+#include <unistd.h>
+
+// process-wide: parallel_resume() frees the block in the thread it creates
 namespace cnt {
-static thread_local long arr_new = 0, arr_del = 0, sc_new = 0;
+static std::atomic<long> arr_new{0}, arr_del{0}, sc_new{0};
+}
+
+// Threads created by the library (resume.h: detached std::thread) while `track` is set are counted at
+// their start and at the very end of their start routine (the closure is destroyed by then), so the
+// replayer can wait for them deterministically - a detached thread cannot be joined.
+namespace thr {
+static std::atomic<bool> track{false};
+static std::atomic<long> started{0}, finished{0};
+struct pack { void *(*start)(void *); void *arg; };
+static void *trampoline(void *p) {
+    pack k = *static_cast<pack *>(p);
+    free(p);
+    void *r = k.start(k.arg);
+    finished.fetch_add(1, std::memory_order_release);
+    return r;
+}
+}
+extern "C" int pthread_create(pthread_t *th, const pthread_attr_t *attr, void *(*start)(void *), void *arg) {
+    static int (*real)(pthread_t *, const pthread_attr_t *, void *(*)(void *), void *) = nullptr;
+    if (!real) real = reinterpret_cast<decltype(real)>(dlsym(RTLD_NEXT, "pthread_create"));
+    if (!thr::track.load()) return real(th, attr, start, arg);
+    auto *k = static_cast<thr::pack *>(malloc(sizeof(thr::pack)));
+    k->start = start;
+    k->arg = arg;
+    thr::started.fetch_add(1);
+    return real(th, attr, &thr::trampoline, k);
 }
 void *operator new[](std::size_t sz) {
     void *p = malloc(sz ? sz : 1);
@@ -174,8 +208,8 @@ struct World {
     // a call into the library: new[] executed inside is attributed to the step; outside coroutine
     // mode (nothing is pushed to the ready queue's deque) no other allocation may happen either
     template <typename Fn>
-    void lib(Fn &&fn) {
-        bool strict = !cocls::coro_queue::is_active();
+    void lib(Fn &&fn, bool may_allocate = false) {
+        bool strict = !cocls::coro_queue::is_active() && !may_allocate;
         long a0 = cnt::arr_new, s0 = cnt::sc_new;
         fn();
         dalloc += cnt::arr_new - a0;
@@ -319,6 +353,42 @@ struct World {
             } else {
                 const SPT &c = s.ti();
                 lib([&] { X r = c; ret = idof(r); rmf = mfof(r); });                          // operator const X() const
+            }
+        } else if (a == "ParResume") {
+            // cocls::parallel_resume(std::move(sp)): the handles are resumed by a new detached thread
+            Slot &s = slots[st.iarg(0)];
+            if (!s.live) { err = "slot not live"; return false; }
+            thr::track.store(true);
+            lib([&] {
+                if (s.typed) { X r = cocls::parallel_resume(std::move(s.ti())); ret = idof(r); rmf = mfof(r); }
+                else cocls::parallel_resume(std::move(s.tv()));
+            }, true);
+            thr::track.store(false);
+            for (long spin = 0; thr::finished.load(std::memory_order_acquire) != thr::started.load(); spin++) {
+                if (spin > 100000) { if (trouble.empty()) trouble = "thread created by parallel_resume did not finish"; break; }
+                usleep(spin < 200 ? 20 : 200);
+            }
+        } else if (a == "CreateSP") {
+            // slot k := coro_queue::create_suspend_point(fn); fn clears / discards object j, then returns or throws
+            Slot &s = slots[st.iarg(0)];
+            int j = st.iarg(1);
+            bool thrw = st.sarg(2) == "TRUE", t = st.sarg(3) == "TRUE";
+            int v = st.iarg(0);
+            if (s.live || (j && !slots[j].live)) { err = "bad slots"; return false; }
+            struct FnThrew {};
+            auto body = [&] {
+                if (j) with(slots[j], [&](auto &o) { if (alt) { SPV discarded(std::move(o)); } else o.clear(); });
+                if (thrw) throw FnThrew();
+            };
+            try {
+                lib([&] {
+                    if (t) new (s.buf) SPT(cocls::coro_queue::create_suspend_point([&] { body(); return X(v); }));
+                    else new (s.buf) SPV(cocls::coro_queue::create_suspend_point([&] { body(); }));
+                }, true);
+                s.live = true;
+                s.typed = t;
+            } catch (const FnThrew &) {
+                ret = maxh + 2;      // the exception reached the caller
             }
         } else if (a == "Pop") {
             Slot &s = slots[st.iarg(0)];
